@@ -1,0 +1,12 @@
+//go:build verif
+
+package storage
+
+// VerifC22CommitVersion returns the highest commit timestamp of the graph
+// database.  Badger assigns one new timestamp per committed read-write
+// transaction, so the difference across a storage call is the number of
+// separate transactions that call committed (read-only hook for the crash
+// check C22: every durable call must be a single transaction).
+func (s *BadgerStore) VerifC22CommitVersion() uint64 {
+	return s.snapshotsDB.MaxVersion()
+}
